@@ -110,7 +110,7 @@ func classify(prop string, vs []Violation) (fresh []Violation, known []string) {
 	for _, v := range vs {
 		matched := false
 		for _, k := range loadKnown() {
-			if k.Status == "open" && k.Property == prop && k.Sig != "" && k.Sig == v.Sig {
+			if k.Status == "open" && k.Property == prop && k.Sig != "" && sigMatch(k.Sig, v.Sig) {
 				known = append(known, k.ID+": "+v.Msg)
 				matched = true
 				break
@@ -121,6 +121,14 @@ func classify(prop string, vs []Violation) (fresh []Violation, known []string) {
 		}
 	}
 	return fresh, known
+}
+
+// sigMatch: exact, or prefix when the listed signature ends in '*'.
+func sigMatch(listed, got string) bool {
+	if strings.HasSuffix(listed, "*") {
+		return strings.HasPrefix(got, strings.TrimSuffix(listed, "*"))
+	}
+	return listed == got
 }
 
 // ---- statistics --------------------------------------------------------------------
